@@ -331,6 +331,100 @@ def lock_list_field(ctx, adt):
     return None
 
 
+def seq_container_kind(t):
+    """'vec' | 'box' | 'array' | 'slice' for the std sequence containers, else None"""
+    if t["k"] == "adt" and t["path"].endswith("::Vec"):
+        return "vec"
+    if t["k"] == "adt" and t["path"].endswith("::Box") and t.get("args") and t["args"][0]["k"] == "slice":
+        return "box"
+    if t["k"] == "array":
+        return "array"
+    if t["k"] == "slice":
+        return "slice"
+    return None
+
+
+def run_on_self_list(ctx, f, m, elem_ty=None, by="ref", model_vecs=False, const_params=None):
+    """Analyse a method of a sequence container (or of a sorting collection) with `self` bound to a modelled list of m
+    elements.  Returns (paths, err, I, list id)."""
+    import listmodel
+    from interp import State, Undecided, Ref
+    I = ctx.M["make"]()
+    I.model_vecs = model_vecs
+    I.loop_limit = m + 4
+    I.const_params = dict(const_params or {})
+    st_ = State()
+    mir = f["mir"]
+    t1 = mir["locals"][1]["ty"]
+    base = t1["ty"] if t1["k"] == "ref" else t1
+    args = []
+    lid = "SELF"
+    if base["k"] == "adt" and base["path"] in SORTING:
+        lid = "LIST"
+        lf = lock_list_field(ctx, base["path"])
+        listmodel.new_list(I, lid, m, {"k": "ref", "mut": False, "s": "&dyn lockable::RawLock",
+                                       "ty": {"k": "dyn", "principal": RL, "s": "dyn lockable::RawLock"}})
+        I.oploc["a1"] = ("O", "a1", ())
+        I.optype["a1"] = t1
+        st_.heap[("O", "a1", ("*", lf))] = listmodel.view(lid, 0, m)
+        args.append(("op", "a1", None))
+    else:
+        ety = elem_ty or (base["ty"] if base["k"] in ("array", "slice") else (base["args"][0]["ty"] if seq_container_kind(base) == "box" else base["args"][0]))
+        v = listmodel.new_list(I, lid, m, ety)
+        if t1["k"] == "ref":
+            st_.heap[("O", "selfcell", ())] = v
+            I.oploc["selfcell"] = ("O", "selfcell", ())
+            I.optype["selfcell"] = base
+            args.append(Ref(("O", "selfcell", ())))
+        else:
+            args.append(v)
+    for i in range(2, mir["arg_count"] + 1):
+        rid = "a%d" % i
+        I.oploc[rid] = ("O", rid, ())
+        I.optype[rid] = mir["locals"][i]["ty"]
+        args.append(("op", rid, None))
+    try:
+        return I.analyze(f, args, st_), None, I, lid
+    except Undecided as e:
+        return None, str(e), I, lid
+    except RecursionError:
+        return None, "recursion limit", I, lid
+
+
+def _getptrs_semantic(ctx, f, st):
+    """get_ptrs of the std sequence containers and of the sorting collections, decided on a modelled list of elements:
+    whatever the loop / iterator form, element k must be asked for its locks exactly once, in order, into the caller's
+    vector (containers); the cached sorted list must be appended in order (sorting collections).  None = not that kind."""
+    kind = seq_container_kind(st)
+    sorting = st["k"] == "adt" and st["path"] in SORTING
+    if not kind and not sorting:
+        return None
+    for m in (0, 2, 3):
+        paths, err, I, lid = run_on_self_list(ctx, f, m, const_params={"N": m})
+        if err:
+            return None, "undecided: " + err
+        for p in paths:
+            if p.kind == "cut":
+                return None, "undecided: loop not resolved on a list of %d elements (%s)" % (m, p.note)
+            if p.kind != "ret":
+                continue
+            gp = [(e["recv"], vid(e["intov"]) if "intov" in e else vid(e.get("into"))) for e in p.ev("GETPTRS")]
+            pushes = [(vid(e["argv"][0]), vid(e["argv"][1])) for e in _calls(p, "Vec::<T, A>::push")]
+            if sorting:
+                want = [("op:a2", "op:%s.[%d]" % (lid, k)) for k in range(m)]
+                if gp:
+                    return None, "asks %s for its locks instead of handing out the cached sorted list" % gp[0][0]
+                if pushes != want:
+                    return None, "appends %s to the caller's vector, expected the %d cached locks in order" % (pushes, m)
+            else:
+                want = [("%s.[%d]" % (lid, k), "op:a2") for k in range(m)]
+                if pushes:
+                    return None, "pushes %s itself" % (pushes[0][1],)
+                if gp != want:
+                    return None, "with %d elements: get_ptrs is called on %s, expected every element once, in order, into the caller's vector" % (m, gp)
+    return ("cached(sorted list)" if sorting else "container(%s: every element once, in order)" % kind), None
+
+
 def rule_E1(ctx, R):
     res = RuleResult("E1", "leaf enumeration: every Lockable::get_ptrs is a leaf (pushes self once), a delegate (one get_ptrs on its "
                            "data), a container (one get_ptrs per field / per element of an unfiltered loop) or a cached sorted list")
@@ -340,6 +434,14 @@ def rule_E1(ctx, R):
             continue
         f = ctx.F.fn_by_id[it["id"]]
         st = imp["self_ty"]
+        sem = _getptrs_semantic(ctx, f, st)
+        if sem is not None:
+            cls, why = sem
+            if cls:
+                res.ok("%s: %s" % (st["s"], cls))
+            else:
+                res.bad(Violation("E1", f["path"], "shape", "get_ptrs of %s: %s" % (st["s"], why), *_floc(f)))
+            continue
         paths, err, I = ctx.paths(f)
         if err:
             res.undecided(f["path"], "analysis", err, *_floc(f))
